@@ -24,7 +24,7 @@ impl FunctionMarkupPass {
         func: &Rc<Function>,
     ) -> Result<MarkData, Box<CfgError>> {
         let mut defs = RegisterSet::new(); // Registers this function writes to
-        let mut returns = None; // Return instructions in this function
+        let mut returns = vec![]; // Return instructions in this function
         let mut instructions = vec![];
 
         // Traverse the CFG for all nodes reachable from the entry point
@@ -40,44 +40,57 @@ impl FunctionMarkupPass {
 
             // Collect return instructions
             if node.is_return() {
-                // Set the newly found return to be an jump to the previously
-                // found return.
-                if let Some(ref prev_ret) = returns {
-                    let found_ret = Rc::clone(&node);
-
-                    // Fix the prevs & nexts of both returns
-                    found_ret.clear_nexts();
-                    found_ret.insert_next(Rc::clone(prev_ret));
-                    prev_ret.insert_prev(Rc::clone(&found_ret));
-
-                    // Convert the found return into a jump
-                    let info = Token::new(
-                        TokenType::Symbol("return".to_string()),
-                        found_ret.raw_text(),
-                        found_ret.range(),
-                        found_ret.file(),
-                    );
-
-                    let inst = With::new(JumpLinkType::Jal, info.clone());
-                    let rd = With::new(Register::X0, info.clone());
-                    let name = With::new(LabelString::new("__return__"), info.clone());
-                    let new_node =
-                        ParserNode::new_jump_link(inst, rd, name, prev_ret.node().token().clone());
-                    #[allow(unused_must_use)]
-                    found_ret.set_node(new_node);
-                }
-                // If this is the first return node, save it
-                else {
-                    returns = Some(Rc::clone(&node));
-                }
+                returns.push(Rc::clone(&node));
             }
         }
 
-        if let Some(ret) = returns {
+        // Choose the exit of the function among its returns. The choice must
+        // not depend on the order of the traversal: prefer a return that is
+        // already the exit of another function (it must stay a return), then
+        // the one that comes first in the source.
+        let position = |node: &Rc<CfgNode>| cfg.nodes().iter().position(|n| Rc::ptr_eq(n, node));
+        let is_other_exit = |node: &Rc<CfgNode>| {
+            cfg.functions()
+                .values()
+                .any(|other| !Rc::ptr_eq(other, func) && Rc::ptr_eq(&other.exit(), node))
+        };
+        returns.sort_by_key(|node| (!is_other_exit(node), position(node)));
+
+        let mut returns = returns.into_iter();
+        if let Some(exit) = returns.next() {
+            // Set every other return to be a jump to the exit
+            for found_ret in returns {
+                // The exit of another function stays as it is
+                if is_other_exit(&found_ret) {
+                    continue;
+                }
+
+                // Fix the prevs & nexts of both returns
+                found_ret.clear_nexts();
+                found_ret.insert_next(Rc::clone(&exit));
+                exit.insert_prev(Rc::clone(&found_ret));
+
+                // Convert the found return into a jump
+                let info = Token::new(
+                    TokenType::Symbol("return".to_string()),
+                    found_ret.raw_text(),
+                    found_ret.range(),
+                    found_ret.file(),
+                );
+
+                let inst = With::new(JumpLinkType::Jal, info.clone());
+                let rd = With::new(Register::X0, info.clone());
+                let name = With::new(LabelString::new("__return__"), info.clone());
+                let new_node =
+                    ParserNode::new_jump_link(inst, rd, name, exit.node().token().clone());
+                #[allow(unused_must_use)]
+                found_ret.set_node(new_node);
+            }
+
             Ok(MarkData {
                 found: defs,
                 instructions,
-                returns: ret,
+                returns: exit,
             })
         }
         // TODO: Handle functions with no return statements
